@@ -157,6 +157,8 @@ func buildPaths(h *expr.HTTPExpr, bodies map[string]map[string]*EndpointBodies, 
 						path.Head = operation
 					case "PATCH":
 						path.Patch = operation
+					case "TRACE":
+						path.Trace = operation
 					}
 					path.Extensions = openapi.ExtensionsFromExpr(r.Endpoint.Meta)
 					if len(exts) > 0 {
